@@ -241,6 +241,19 @@ def check_case(case, ctx):
         r = compare_dict(d, case["statements"])
         if r is None and d2 != d:
             r = "properties differs from as_dict()"
+        if r is None:
+            # another profile object read in between: every profile has its own view
+            try:
+                other = c2p.C2Profile.from_text('set sample_name "other profile";\nhttp-get {\n set uri "/other";\n}\n')
+                od = other.as_dict()
+                d3, d4, od2 = prof.as_dict(), prof.properties, other.as_dict()
+            except Exception as e:  # noqa: BLE001
+                ctx.violation("dict.model", f"two profiles read in turn: {type(e).__name__}: {str(e)[:300]}", case)
+                return
+            if od != {"sample_name": ["other profile"], "http-get.uri": ["/other"]} or od2 != od:
+                r = f"the view of a second profile, read after this one, is {od!r} / {od2!r}"
+            elif d3 != d or d4 != d:
+                r = "as_dict() / properties of this profile changed after another profile's view was read"
         if r:
             ctx.violation("dict.model", r, {"op": "dict", "text": case["text"], "statements": case["statements"], "reads": case.get("reads", 1)})
             return
@@ -468,6 +481,18 @@ def check_case(case, ctx):
                 if case.get("more"):
                     want.append({"path": ("dns-beacon",), "kw": ["dns_idle"], "args": [v[1]], "vals": [v[1].encode()], "rule": "x"})
                 text = None
+            elif which == "written-tail":
+                # str values are literal text as written: also when they end in a backslash in front of a line feed, hold
+                # one in the middle, or end in an escaped backslash and a line feed (built == parsed, whatever they mean)
+                md = c2p.DataTransformBlock()
+                md.add_step("prepend", v[4])
+                md.add_termination("print", None)
+                built.set_option("useragent", v[0])
+                built.set_config_block("dns_beacon", c2p.DnsBeaconBlock(dns_idle=v[1]))
+                built.set_config_block("http_get", c2p.HttpGetBlock(client=c2p.HttpOptionsBlock(header=[(v[2], v[3])], metadata=md)))
+                want = None
+                text = (f'set useragent "{v[0]}"; dns-beacon {{ set dns_idle "{v[1]}"; }} '
+                        f'http-get {{ client {{ header "{v[2]}" "{v[3]}"; metadata {{ prepend "{v[4]}"; print; }} }} }}')
             elif which == "emptydt-termination-later":
                 # attached empty, then only termination statements are added through the handle
                 out = c2p.DataTransformBlock()
@@ -511,7 +536,7 @@ def check_case(case, ctx):
         except Exception as e:  # noqa: BLE001
             ctx.violation("builder.equal", f"builder edge '{which}' {v!r}: {type(e).__name__}: {str(e)[:200]}", case)
             return
-        r = compare_dict(d1, want) or compare_dict(d2, want)
+        r = (compare_dict(d1, want) or compare_dict(d2, want)) if want is not None else None
         if r:
             ctx.violation("dict.model", f"builder edge '{which}': {r}", case)
             return
@@ -617,6 +642,9 @@ def run_shard(shard, ctx):
         for i in range(20):
             check_case({"op": "builder_edge", "which": ["dnscomment", "emptydt-none", "emptydt-list", "emptydt-filled-later", "emptydt-termination-later"][i % 5], "more": (i // 5) % 2 == 0,
                         "vals": [_val(rng) or "x" for _ in range(3)]}, ctx)
+        tails = ["\\\n", "a\\\nb", "\\\\\n", "\\n\n", "x\\\n\\\n", "\n", "\\\r\n"]
+        for i in range(16):
+            check_case({"op": "builder_edge", "which": "written-tail", "vals": [("w%d" % k) + tails[(i + k * 3) % len(tails)] if (i + k) % 2 == 0 or i < 8 else "plain%d" % k for k in range(5)]}, ctx)
         for _ in range(12):
             check_case({"op": "kwargs", "vals": [_val(rng) or "x" for _ in range(13)]}, ctx)
         names = [_kws(a)[0] for a in LANG["beacon_gate_options"]]
